@@ -882,6 +882,19 @@ class Interp:
         post = self.read(result, what)
         self.need_ids(what, pre, post, _flat(olay))
         self.expect_exact(what, pre, post, want)
+        # property statement: operations that conflict on a measurement key keep the order the concatenation prescribes
+        l1, l2 = (pre, olay) if a.get("first", True) else (olay, pre)
+        wpos = M.instance_positions(want)
+        bad = [(x, y) for x in set(_flat(l1)) for y in set(_flat(l2)) if M.conflict_k(self.info[x], self.info[y])
+               and not max(p for (z, _), p in wpos.items() if z == x) < min(p for (z, _), p in wpos.items() if z == y)]
+        if bad:
+            self.features.add("F14")
+            if not self.detect:
+                ppos = M.instance_positions(post)
+                for x, y in bad:
+                    if not max(p for (z, _), p in ppos.items() if z == x) < min(p for (z, _), p in ppos.items() if z == y):
+                        self.fail(f"{what}: I3 operation id {y} of the second circuit is not after operation id {x} of the first "
+                                  f"circuit although they conflict on a measurement key", pre, post)
         if pre and olay:
             self.stats["mid"] += 1
         self._finish_pure(what, a, pre, result, post)
@@ -1086,6 +1099,9 @@ KNOWN_FEATURES = {
     "F12_batch_insert_overshift": lambda sub, r: "F12" in _features(r),
     # query prev_moment_operating_on(qubits, end_moment_index > len(circuit)) with the default max_distance
     "F13_prev_moment_end_past_circuit": lambda sub, r: "F13" in _features(r),
+    # concat_ragged of circuits where an operation of the later circuit shares a measurement key with (measure/measure or
+    # measure/control) but no qubit-collision-forced position after an operation of the earlier circuit
+    "F14_concat_ragged_ignores_keys": lambda sub, r: "F14" in _features(r),
 }
 
 from vf.gen.c05_history import history  # noqa: E402
